@@ -19,8 +19,8 @@ BINS = ["h_fsstore", "h_mup"]
 LEVEL = "proof"
 MANIFEST = {
     "category": "proof",
-    "text": "Coq theorems: (a) MonitorUpdatingPersister over the KVStore contract is crash consistent for every abstract monitor/apply, every maximum_pending_updates, every ChainMonitor-disciplined history, every crash prefix of store operations and every subset of pending lazy removals (recovery returns exactly the in-memory monitor before or after the interrupted call), clean-up only removes ids <= a durably written monitor; (b) with an asynchronous store the same holds iff operations become durable in issue order - refuted otherwise (witness) and reproduced on the real code; (c) FilesystemStore's version/lock-table protocol keeps per key the last issued write for every schedule with ordered issues, versions never regress. Tied by differential execution of the real stores and the real persister with real monitors.",
-    "note": "Assumed: POSIX rename/unlink atomicity and fsync durability (no power-loss simulation), std::sync primitives. FsStoreProto is tied to the Rust by reading plus sequential/concurrent differential runs, not by a proof. Reported finding: async persister + out-of-order durability makes recovery panic (H1).",
+    "text": "Coq theorems: (a) MonitorUpdatingPersister over the KVStore contract is crash consistent for every abstract monitor/apply, every maximum_pending_updates, every ChainMonitor-disciplined history, every crash prefix of store operations and every subset of pending lazy removals (recovery returns exactly the in-memory monitor before or after the interrupted call); clean-up only removes ids <= a durably written monitor; (b) asynchronous store: for EVERY durability outcome of every call recovery returns an in-memory monitor of the history at least as recent as everything that can have been reported persisted (holds for the code after fix 6ef6bbe, found by this check); (c) FilesystemStore's version/lock-table protocol keeps per key the last issued write for every schedule with ordered issues, versions never regress. Tied by differential execution of the real stores and of the real (sync and async) persister with real monitors.",
+    "note": "Assumed: POSIX rename/unlink atomicity and fsync durability (no power-loss simulation), std::sync primitives. FsStoreProto is tied to the Rust by reading plus sequential/concurrent differential runs, not by a proof; the tokio API of FilesystemStore is not executed. Finding H1 (async persister + out-of-order durability made recovery panic) was found by this check and fixed in /repo (6ef6bbe); it stays in the generator.",
     "technique": "machine-checked proof in Coq (invariants over operation prefixes / schedules) + differential correspondence + linearizability judge",
 }
 KEY_H1 = "C19:async-out-of-order-durability"
